@@ -325,12 +325,20 @@ func (ex *Exec) calleeEnv(spec *FuncSpec, info calleeInfo, args []Val, st, old *
 	return env
 }
 
+func firstIntLit(es []SExpr) (*SIntLit, bool) {
+	if len(es) == 1 {
+		l, ok := es[0].(*SIntLit)
+		return l, ok
+	}
+	return nil, false
+}
+
 // calleeGhosts binds the callee's ghost outputs (bind / ghost clauses) to
 // fresh values: for the caller they are existentially quantified.
 func (ex *Exec) calleeGhosts(spec *FuncSpec, info calleeInfo, env *Env) {
 	for _, cl := range spec.Clauses {
 		if cl.Kind == "bind" || (cl.Kind == "ghost" && cl.Expr == nil) {
-			t := ex.V.specType(cl.Type, info.pkg)
+			t := ex.V.specType(strings.TrimPrefix(cl.Type, "before:"), info.pkg)
 			env.vars[cl.Name] = ex.freshVal("cg."+cl.Name, t)
 		}
 	}
@@ -402,6 +410,28 @@ func shortKey(k string) string {
 func (ex *Exec) applyContract(spec *FuncSpec, info calleeInfo, c *ssa.CallCommon, args []Val, rt types.Type, pos token.Pos) Val {
 	ex.usedSpecs[info.key] = true
 	ex.checkCallPre(spec, info, c, args, pos)
+	// "bind g T := before K n expr": expr over the state just before the call,
+	// with the call's arguments available as arg0, arg1, ...
+	if ex.spec != nil {
+		for _, cl := range ex.spec.Clauses {
+			if cl.Kind == "bind" && strings.HasPrefix(cl.Type, "before:") && cl.Text == fmt.Sprintf("%s %d", info.key, ex.callCount[info.key]+1) {
+				env := ex.envAt(ex.cur, nil)
+				for i, a := range args {
+					env.vars[fmt.Sprintf("arg%d", i)] = a
+				}
+				v := ex.evalSpec(cl.Expr, env)
+				t := ex.V.specType(strings.TrimPrefix(cl.Type, "before:"), ex.pkg)
+				v.Ty = t
+				if old, ok := ex.ghosts[cl.Name]; ok && old.T != nil && v.T != nil && ex.pc != True {
+					c := ex.D.Fresh("g."+cl.Name, v.T.S)
+					ex.assume(Eq(c, Ite(ex.pc, v.T, old.T)))
+					v.T = c
+				}
+				ex.ghosts[cl.Name] = v
+				ex.ghostTy[cl.Name] = t
+			}
+		}
+	}
 	pre := ex.cur.clone()
 	post := ex.cur
 	// results
@@ -450,7 +480,7 @@ func (ex *Exec) applyContract(spec *FuncSpec, info calleeInfo, c *ssa.CallCommon
 	ex.callCount[info.key]++
 	if ex.spec != nil {
 		for _, cl := range ex.spec.Clauses {
-			if cl.Kind == "bind" && cl.Text == fmt.Sprintf("%s %d", info.key, ex.callCount[info.key]) {
+			if cl.Kind == "bind" && !strings.HasPrefix(cl.Type, "before:") && cl.Text == fmt.Sprintf("%s %d", info.key, ex.callCount[info.key]) {
 				v := res
 				if len(v.Fs) > 0 {
 					v = v.Fs[0]
@@ -460,6 +490,16 @@ func (ex *Exec) applyContract(spec *FuncSpec, info calleeInfo, c *ssa.CallCommon
 					continue
 				}
 				if len(cl.Exprs) == 1 {
+					if id, isGhost := cl.Exprs[0].(*SIdent); isGhost {
+						gv, ok := env.vars[id.Name]
+						if !ok {
+							ex.fail("bind %s: callee has no ghost %s", cl.Name, id.Name)
+							continue
+						}
+						v = gv
+					}
+				}
+				if _, isLit := firstIntLit(cl.Exprs); isLit {
 					var idx int
 					fmt.Sscanf(cl.Exprs[0].(*SIntLit).Val, "%d", &idx)
 					if idx >= len(args) {
@@ -650,7 +690,7 @@ func (ex *Exec) havocTarget(e SExpr, env *Env, pre, post *State) {
 			sl := ex.evalSpec(x.Args[0], env)
 			et := sl.Ty.Underlying().(*types.Slice).Elem()
 			es := sortOf(et)
-			name := heapArrName(es)
+			name := heapArrName(et)
 			h := ex.getHeap(post, name, ArrS(SInt, ArrS(SInt, es)))
 			ex.setHeap(post, name, ex.named(name, Store(h, SlBase(sl.T), ex.D.Fresh(name+".new", ArrS(SInt, es)))))
 			return
@@ -658,7 +698,7 @@ func (ex *Exec) havocTarget(e SExpr, env *Env, pre, post *State) {
 			m := ex.evalSpec(x.Args[0], env)
 			mt := m.Ty.Underlying().(*types.Map)
 			vs := sortOf(mt.Elem())
-			dn, vn := mapDomName(vs), mapValName(vs)
+			dn, vn := mapDomName(mt), mapValName(mt)
 			d := ex.getHeap(post, dn, ArrS(SInt, ArrS(SInt, SBool)))
 			v := ex.getHeap(post, vn, ArrS(SInt, ArrS(SInt, vs)))
 			ex.setHeap(post, dn, ex.named(dn, Store(d, m.T, ex.D.Fresh(dn+".new", ArrS(SInt, SBool)))))
@@ -784,7 +824,8 @@ func (ex *Exec) callBuiltin(b *ssa.Builtin, c *ssa.CallCommon, args []Val, pos t
 		case SInt:
 			if mt, ok := c.Args[0].Type().Underlying().(*types.Map); ok {
 				vs := sortOf(mt.Elem())
-				dom := Select(ex.getHeap(ex.cur, mapDomName(vs), ArrS(SInt, ArrS(SInt, SBool))), a.T)
+				_ = vs
+				dom := Select(ex.getHeap(ex.cur, mapDomName(mt), ArrS(SInt, ArrS(SInt, SBool))), a.T)
 				return Val{T: ex.card(dom, a.T), Ty: tyInt}
 			}
 			r := ex.D.Fresh("chanlen", SInt)
@@ -806,8 +847,7 @@ func (ex *Exec) callBuiltin(b *ssa.Builtin, c *ssa.CallCommon, args []Val, pos t
 		m := args[0]
 		mt := c.Args[0].Type().Underlying().(*types.Map)
 		key := ex.mapKey(args[1], mt.Key())
-		vs := sortOf(mt.Elem())
-		dn := mapDomName(vs)
+		dn := mapDomName(mt)
 		dom := ex.getHeap(ex.cur, dn, ArrS(SInt, ArrS(SInt, SBool)))
 		// delete on a nil map is a no-op
 		ex.setHeap(ex.cur, dn, ex.named(dn, Ite(Eq(m.T, IntLit(0)), dom, Store(dom, m.T, Store(Select(dom, m.T), key, False)))))
@@ -863,7 +903,7 @@ func (ex *Exec) doAppend(c *ssa.CallCommon, args []Val, pos token.Pos) Val {
 	s := args[0]
 	st := c.Args[0].Type().Underlying().(*types.Slice)
 	es := sortOf(st.Elem())
-	name := heapArrName(es)
+	name := heapArrName(st.Elem())
 	A := ex.getHeap(ex.cur, name, ArrS(SInt, ArrS(SInt, es)))
 	if len(args) == 1 {
 		return s
@@ -923,7 +963,7 @@ func (ex *Exec) doCopy(c *ssa.CallCommon, args []Val, pos token.Pos) Val {
 	}
 	st := c.Args[0].Type().Underlying().(*types.Slice)
 	es := sortOf(st.Elem())
-	name := heapArrName(es)
+	name := heapArrName(st.Elem())
 	A := ex.getHeap(ex.cur, name, ArrS(SInt, ArrS(SInt, es)))
 	n := ex.D.Fresh("copy.n", SInt)
 	ex.assume(Eq(n, Ite(Le(SlLen(dst.T), SlLen(src.T)), SlLen(dst.T), SlLen(src.T))))
